@@ -9,7 +9,7 @@ CFG = {'assumptions': ['len(key) < 2^28 and len(keys) < 2^31 (Go int32 lengths a
         'sigbits.ShardByPrefix/route': 'sigbits.ShardByPrefix, then sort.Search (last prefix <= key) over the returned prefixes for every key'},
  'rule': 'cases = exhaustive sweep (every non-empty subset of a 10-string universe x maxSize 1..len+1) + structured random '
          'strictly ascending key sets of 1..60 keys (thorough: up to 300) (flat / extension chain / differing in byte 0 / '
-         'trie-shaped / deep shared prefixes, over {a,b}, {00,01,a}, {00,80,ff}, full bytes) x maxSize in {1,2,..,len+1} + long keys (lengths and shared prefixes of 254..300 and 8191..8193 bytes, one key of 65537 bytes; 2..4 adjacent keys sharing 65535/65536/65537/65540 bytes x maxSize 1, 2, len -- for keys longer than 9000 bytes the run evaluates spec_ShardByPrefix, proved equal to the model: C17_run_is_model; full fan-out: a prefix key plus successors using all 256 / 255 / 254 values of the next byte, sub-ranges of 1..3 keys, directly and under a 3-byte prefix x maxSize in {1,2,3,128,255,256,257,258}; maxSize in {2^30, MaxInt32-1, MaxInt32} on every universe subset of <= 3 keys and on hand-shaped sets; one key set of 262149 keys (k + 3-byte counter from 12345) with maxSize 70000 through the op /counter (thorough: also 300000 keys and maxSize 1000); 150 (thorough 3000) histories of 2..5 calls on ONE key buffer refilled in place (op /reuse)); the '
+         'trie-shaped / deep shared prefixes, over {a,b}, {00,01,a}, {00,80,ff}, full bytes) x maxSize in {1,2,..,len+1} + deeply nested splits (a^d b, a^d c for d = 0..D, D in 30..70: nesting depth around and beyond 32 and 64, maxSize 1, 2, 3, 5) + long keys (lengths and shared prefixes of 254..300 and 8191..8193 bytes, one key of 65537 bytes; 2..4 adjacent keys sharing 65535/65536/65537/65540 bytes x maxSize 1, 2, len -- for keys longer than 9000 bytes the run evaluates spec_ShardByPrefix, proved equal to the model: C17_run_is_model; full fan-out: a prefix key plus successors using all 256 / 255 / 254 values of the next byte, sub-ranges of 1..3 keys, directly and under a 3-byte prefix x maxSize in {1,2,3,128,255,256,257,258}; maxSize in {2^30, MaxInt32-1, MaxInt32} on every universe subset of <= 3 keys and on hand-shaped sets; one key set of 262149 keys (k + 3-byte counter from 12345) with maxSize 70000 through the op /counter (thorough: also 300000 keys and maxSize 1000); 150 (thorough 3000) histories of 2..5 calls on ONE key buffer refilled in place (op /reuse)); the '
          'property is a relation: the observed (L,B) is judged by the extracted checker shard_ok, and compared with the model '
          'for correspondence; a case is non-trivial when the result has >= 2 shards and some shard has >= 2 keys '
          'every case is also run through the op sigbits.ShardByPrefix/route (the real output used as a routing table: each key must be sent to the shard that holds it); (key = key count, maxSize class, shard count, longest prefix length, single-key shard that is a prefix of its successor)'}
